@@ -572,13 +572,15 @@ static bool decodeAttributeMap(std::map<CK_ATTRIBUTE_TYPE,OSAttribute>& map, con
 		memcpy(&attrType, binary + pos, sizeof(attrType));
 		pos += sizeof(attrType);
 
-		AttributeKind attrKind;
+		// The stored kind can be any number; it must not be loaded into the
+		// enumeration type before it has been checked (by the switch below)
+		unsigned int attrKind = 0;
 		if (pos + sizeof(AttributeKind) > size)
 		{
 			goto overrun;
 		}
-		memcpy(&attrKind, binary + pos, sizeof(attrKind));
-		pos += sizeof(attrKind);
+		memcpy(&attrKind, binary + pos, sizeof(attrKind) < sizeof(AttributeKind) ? sizeof(attrKind) : sizeof(AttributeKind));
+		pos += sizeof(AttributeKind);
 
 		// Verify using attributeKind()?
 
@@ -623,7 +625,7 @@ static bool decodeAttributeMap(std::map<CK_ATTRIBUTE_TYPE,OSAttribute>& map, con
 				memcpy(&len, binary + pos, sizeof(len));
 				pos += sizeof(len);
 
-				if (pos + len > size)
+				if (len > size - pos)
 				{
 					goto overrun;
 				}
@@ -645,7 +647,7 @@ static bool decodeAttributeMap(std::map<CK_ATTRIBUTE_TYPE,OSAttribute>& map, con
 				memcpy(&len, binary + pos, sizeof(len));
 				pos += sizeof(len);
 
-				if (pos + len > size)
+				if (len > size - pos)
 				{
 					goto overrun;
 				}
